@@ -143,6 +143,7 @@ type Machine struct {
 	onPending    func([]Dec)
 	inIntrinsic  *ssa.Function
 	decided      map[*sym.Term]bool
+	domPending   []domFact
 	lastRun      *Run
 	mapOrderRev  bool
 	idN          int
@@ -185,6 +186,7 @@ func (m *Machine) assertPC(t *sym.Term) {
 	}
 	m.pc = append(m.pc, t)
 	m.S.Assert(t)
+	m.C.LearnFact(t)
 	if m.model != nil && sym.Eval(t, m.model, m.modelMemo) != 1 {
 		m.model = nil
 	}
